@@ -486,6 +486,8 @@ type stepStats struct {
 	msgs, reached, nontrivial int
 	fullBlockRequested        bool // a getdata for a full block went to this peer (in-progress entry without collector)
 	inProgressMax             int
+	txTrailing                int    // tx messages with bytes after a well-formed transaction that reached ParseTxNet
+	addrFlood                 uint64 // gocoin's BanAddrFlood counter
 	genuineAccepted           int    // genuine copies of a wanted block taken after another peer's corrupt copy
 	txChanFull, sendOverflow  uint64 // gocoin's counters TxChannelFULL, PeerSendOverflow
 	getdataPaused, blkQueued  uint64 // GetDataPaused(+Ext), NetBlock-Queued
@@ -564,6 +566,11 @@ func runSeq(cs seqCase, st *stepStats) (err error) {
 		if m.Cmd == "addr" {
 			e.touchAddr(pl)
 		}
+		if st != nil && m.Cmd == "tx" && c.X.VersionReceived && common.AcceptTx() {
+			if ref, used, err := wire.DecodeTx(pl); err == nil && used < len(pl) && len(ref.In) > 0 {
+				st.txTrailing++
+			}
+		}
 		if st != nil && c.Mutex.TryLock() {
 			if len(c.GetBlockInProgress) > 0 {
 				var key btc.BIDX
@@ -613,6 +620,11 @@ func runSeq(cs seqCase, st *stepStats) (err error) {
 		// the main thread's job: queued transactions go to the mempool, queued blocks are taken off
 		for cs.Queues != "nettxs_full" && len(network.NetTxs) > 0 {
 			ntx := <-network.NetTxs
+			if m.Cmd == "tx" {
+				if err := checkQueuedTx(pl, ntx); err != nil {
+					return err
+				}
+			}
 			if err := guarded("txpool.HandleNetTx for a transaction queued by the tx handler", func() { txpool.HandleNetTx(ntx) }); err != nil {
 				return err
 			}
@@ -689,6 +701,7 @@ func runSeq(cs seqCase, st *stepStats) (err error) {
 		st.txChanFull, st.sendOverflow = common.CounterGet("TxChannelFULL"), common.CounterGet("PeerSendOverflow")
 		st.getdataPaused = common.CounterGet("GetDataPaused") + common.CounterGet("GetDataPauseExt")
 		st.blkQueued = common.CounterGet("NetBlock-Queued")
+		st.addrFlood = common.CounterGet("BanAddrFlood")
 	}
 	harvestCounters()
 	runtime.ReadMemStats(&ms)
@@ -706,7 +719,7 @@ var errReconnect = fmt.Errorf("reconnect")
 var depthCounters = []string{"HeaderNew", "HeaderFresh", "HeaderOld", "NetBlock-Queued", "NetBlock-CachedA", "UnxpectedBlockNEW", "TxAccepted",
 	"Tx Procesed", "TxInputInMemory", "PreCheckBlockFail", "GetHeadersBadBlock", "GetHeadersOrphBlk", "GetblksMissed", "GetdataBlockSw",
 	"GetdataTxSw", "GetdataCmpctBlk", "AddrNewYES", "AddrNewNO", "AddrUpdated", "PongOK", "InvBlockNew", "InvBlockFresh", "BlkTxnIncomplete",
-	"ShortIDUnknown", "BanVerSameNonce", "TxChannelFULL", "PeerSendOverflow", "GetDataPaused", "GetDataPauseExt", "GetDataRestored", "BanGetDataTooBigA", "UnxpBlockTxnA", "UnxpBlockTxnB", "BlkTxnSameRcvd", "TrustedMsg-Tx", "TrustedMsg-Block", "BanMisbehave", "PeersBanned", "EmptyHeadersRcvd", "CmpctBlockMaxInProg"}
+	"ShortIDUnknown", "BanVerSameNonce", "BanAddrFlood", "AddrBanUndone", "BanTxRejectedLenMismatch", "TxChannelFULL", "PeerSendOverflow", "GetDataPaused", "GetDataPauseExt", "GetDataRestored", "BanGetDataTooBigA", "UnxpBlockTxnA", "UnxpBlockTxnB", "BlkTxnSameRcvd", "TrustedMsg-Tx", "TrustedMsg-Block", "BanMisbehave", "PeersBanned", "EmptyHeadersRcvd", "CmpctBlockMaxInProg"}
 
 func harvestCounters() {
 	common.CounterMutex.Lock()
@@ -724,6 +737,34 @@ func harvestCounters() {
 			pbt.AddExtra("gocoin_counter/"+k, int64(v))
 		}
 	}
+}
+
+// checkQueuedTx is an extra oracle on behalf of property C09 ("trailing bytes are refused, or the reported
+// txid / wtxid / size / weight equal the definitions"), for the network front end of the transaction
+// decoder (ParseTxNet), which the C09 check - it drives lib/btc - cannot reach.  pl is the payload of the
+// tx message just handled, ntx what the handler queued for the mempool.  Only judged when the reference
+// decoder reads a transaction from the front of pl (whether the two decoders agree on what a transaction
+// is, is C09's own business).
+func checkQueuedTx(pl []byte, ntx *txpool.TxRcvd) error {
+	const tag = "[serves C09: trailing bytes are refused, or the reported txid/wtxid/size/weight equal the definitions] "
+	ref, used, err := wire.DecodeTx(pl)
+	if err != nil || ntx == nil || ntx.Tx == nil {
+		return nil
+	}
+	tx := ntx.Tx
+	if used != len(pl) {
+		return fmt.Errorf(tag+"a tx message with %d byte(s) after a well-formed transaction of %d bytes was taken (queued for the mempool with Raw of %d bytes)", len(pl)-used, used, len(tx.Raw))
+	}
+	if !bytes.Equal(tx.Raw, pl) || int(tx.Size) != len(pl) {
+		return fmt.Errorf(tag+"queued transaction: Raw/Size (%d/%d bytes) are not the %d bytes given", len(tx.Raw), tx.Size, len(pl))
+	}
+	if tx.Hash.Hash != ref.TxID() || tx.WTxID().Hash != ref.WTxID() {
+		return fmt.Errorf(tag + "queued transaction: txid / wtxid are not those of the bytes given")
+	}
+	if tx.Weight() != ref.Weight() || tx.VSize() != ref.VSize() {
+		return fmt.Errorf(tag+"queued transaction: weight %d / vsize %d, the bytes weigh %d / %d", tx.Weight(), tx.VSize(), ref.Weight(), ref.VSize())
+	}
+	return nil
 }
 
 // checkAcceptedBlock is an extra oracle on behalf of property C09 ("a block's transaction list, ids and
@@ -789,6 +830,22 @@ func genSeqCase(t *rapid.T) seqCase {
 		if cs.Queues == "nettxs_full" {
 			cs.Syncing = false // transactions are only taken when the chain is synchronised
 		}
+	}
+	if cs.Queues == "" && g.chance(4) {
+		// addr flood: 10..13 addr messages with together more than 100 addresses the node does not know, right
+		// after connecting - ParseAddr then deletes what came from this peer (peersdb.DeleteFromIP) and bans it
+		cs.Handshake = true
+		var fl []msg
+		for i, n := 0, g.n(10, 13, "nflood"); i < n; i++ {
+			fl = append(fl, g.addrFreshN(g.n(11, 40, "floodaddrs")))
+			if g.chance(15) {
+				fl = append(fl, msg{Cmd: pick(g, []string{"ping", "#tick", "getaddr"}), Pl: "0102030405060708"})
+			}
+		}
+		rest := g.sequence(8)
+		cs.Msgs = append(fl, rest...)
+		cs.Tags = append(g.tags, "addr_flood")
+		return cs
 	}
 	if cs.Peers == "" && cs.Queues == "" && g.chance(4) {
 		// a self-contained scenario: nothing else in the case can deliver or discard the block first
@@ -890,7 +947,11 @@ func classify(r *pbt.Run, cs seqCase) {
 	for _, tg := range cs.Tags {
 		if !seenTag[tg] {
 			seenTag[tg] = true
-			r.Class("blockbody/" + tg)
+			if strings.HasPrefix(tg, "wc/") {
+				r.Class("blockbody/" + tg)
+			} else {
+				r.Class("scenario/" + tg)
+			}
 		}
 		breaks = breaks || strings.HasPrefix(tg, "wc/") && wcBreaksRule(tg[3:])
 	}
@@ -969,6 +1030,12 @@ func TestHandlerSequences(t *testing.T) {
 		}
 		if cs.Peers != "" && st.addrNewYES > 0 {
 			r.Class("addr/new_record_taken_near_the_limit")
+		}
+		if st.txTrailing > 0 {
+			r.Class("c09/tx_with_trailing_bytes_offered")
+		}
+		if st.addrFlood > 0 {
+			r.Class("addr/flood_detected")
 		}
 		if st.genuineAccepted > 0 {
 			r.Class("c09/genuine_block_accepted_after_corrupt_copy")
